@@ -284,6 +284,8 @@ class Names:
         if not sh and not lo:
             sh.append(self.short())
         env = [self.env()] if (r.random() < env_p and self.envs) else []
+        if env and self.envs and r.random() < 0.35:
+            env.append(self.env())              # several declared variables: the first one that is set counts
         help_ = ("help for " + (lo[0] if lo else sh[0])) if r.random() < help_p else None
         return named(sh, lo, env, help_)
 
@@ -644,6 +646,26 @@ def gen_adj_group(rng, names):
     return g
 
 
+def gen_wrapped_group(rng, names):
+    """A plain construct!(..) group of REQUIRED named members that is optional / repeated / defaulted as a whole: giving
+    only some of its members is an error under every one of these wrappers."""
+    members = []
+    for _ in range(rng.choice([2, 2, 3])):
+        if rng.random() < 0.3:
+            members.append(req_flag(names.named(), "unit"))
+        else:
+            members.append(arg(names.named(), rng.choice(METAVARS), rng.choice(["string", "string", "u32"])))
+    g = con(*members)
+    w = rng.choice(["optional", "fallback", "fallback-with", "fallback-with", "many"])
+    if w == "optional":
+        return wrap("optional", g, catch=False)
+    if w == "many":
+        return wrap("many", g, catch=False)
+    if w == "fallback":
+        return wrap("fallback", g, v="unit", show=False)
+    return wrap("fallback-with", g, r="(ok unit)")
+
+
 def gen_level(rng, names, depth=0, max_depth=2, features=("alt", "adj", "cmd", "pos"), env_p=0.0,
               allow_catch=False, n_named=None):
     """A command level: named items (plus alternatives / adjacent groups), then a positional suffix or
@@ -663,6 +685,8 @@ def gen_level(rng, names, depth=0, max_depth=2, features=("alt", "adj", "cmd", "
             fields.append(a)
         elif "adj" in features and r < 0.25:
             fields.append(gen_adj_group(rng, names))
+        elif "grp" in features and 0.25 <= r < 0.37:
+            fields.append(gen_wrapped_group(rng, names))
         else:
             fields.append(gen_named_item(rng, names, env_p=env_p, allow_catch=allow_catch))
     tail = rng.choice(["none", "pos", "pos", "cmd"]) if depth < max_depth else rng.choice(["none", "pos"])
